@@ -102,7 +102,9 @@ def split_stream_chains(ex, body):
 RULES = [
     X.Rule('using namespace', r'\busing\s+namespace\s+[\w:]+\s*;', ''),
     X.Rule('method_name (demangle) dropped', r'auto\s+method_name\s*=\s*boost::core::demangle\([^;]*\);', '', 1, 1),
+    X.Rule('auto in for-init', r'for\s*\(\s*auto\s+(\w+)\s*=', r'for (__auto_type \1 ='),
     X.Rule('auto comma = ""', r'\bauto\s+(\w+)\s*=\s*"', r'const char *\1 = "'),
+    X.split_auto_declarators,
     split_stream_chains,
     X.Rule('method.arity()', r'\bmethod\.arity\(\)', 'METHOD_ARITY(method)'),
 ] + X.COMMON_RULES
